@@ -132,10 +132,9 @@ pub fn conclude(meta: Meta, mut report: Report) -> i32 {
     let mut real = Vec::new();
     for v in deciding {
         if let Some(k) = known.iter().find(|k| k.prop == v.prop && k.sig == v.sig) {
-            if let Some(e) = known_seen.iter_mut().find(|e| e.0 == k.sig) {
-                e.2 += 1;
-            } else {
-                known_seen.push((k.sig.clone(), k.text.clone(), 1));
+            if !known_seen.iter().any(|e| e.0 == k.sig) {
+                let n = report.get(&format!("violations_seen[{}:{}]", v.prop, v.sig)).max(1);
+                known_seen.push((k.sig.clone(), k.text.clone(), n));
             }
         } else {
             real.push(v);
